@@ -1292,6 +1292,19 @@ impl Actor {
                     ));
                 }
 
+                if deal_proposal.start_epoch >= curr_epoch {
+                    // The deal is activated but nothing is payable yet: the payment window
+                    // [start_epoch, curr_epoch) is empty. This is a no-op that must not touch the
+                    // deal state, so that the proposal stays in the pending set and cannot be
+                    // published a second time before the deal starts.
+                    settlements.push(DealSettlementSummary {
+                        completed: false,
+                        payment: TokenAmount::zero(),
+                    });
+                    batch_gen.add_success();
+                    continue;
+                }
+
                 let (_, payment_amount, completed, remove_deal) = match st.process_deal_update(
                     rt.store(),
                     &deal_state,
